@@ -450,4 +450,12 @@ def c03_e(ctx: Ctx):
     return res
 
 
-RULES = [c03_a, c03_b, c03_c, c03_d, c03_e]
+@rule("C03-f")
+def c03_f(ctx: Ctx):
+    """No job / project function remembers answers across calls: what a fresh handle sees must come from the disk (and the per-project state point cache, which C08 covers)."""
+    from .lints import no_memoisation_modules
+    return no_memoisation_modules(ctx, "C03-f", ("signac.job", "signac.project", "signac._utility"),
+                                  "the workspace changes between calls (jobs are removed, re-keyed, moved), so a remembered answer describes a workspace that no longer exists")
+
+
+RULES = [c03_a, c03_b, c03_c, c03_d, c03_e, c03_f]
